@@ -105,6 +105,10 @@ def binom (n k : Nat) : Nat := if k > n then 0 else (List.range k).foldl (fun ac
 def hyperProbs (r0 r1 c0 k : Nat) : List Float :=
   (List.range (k + 1)).map (fun x => (binom r0 x * binom r1 (c0 - x)).toFloat / (binom (r0 + r1) c0).toFloat)
 
+/-- is "follows the weights" judgeable for these weights: one weight per element, non-negative,
+positive total (the assumptions of `weighted_pick_law`) -/
+def lawJudgeable (n : Nat) (w : List Float) : Bool := w.length == n && weightsOk w
+
 def verdictOf (checks : List (Bool × String)) : String :=
   match checks.find? (fun p => !p.1) with
   | some (_, name) => "FAIL:" ++ name
@@ -180,6 +184,8 @@ def step (_ : St) (op : List String) (impl : Option (List String)) : St × Strin
               let supp := (v.zip w).any (fun (x, wx) => x == e && wx > 0.0) || v.getLast? == some e
               verdictOf [(!v.isEmpty, "empty_raises"), (v.contains e, "pick_member"), (supp, "weighted_pick_support"),
                 (if repl then v' == v && w'.length == w.length else isPermOf (e :: v') v && w'.length + 1 == w.length, "pick_removes_one"),
+                -- the law: `e` is the element whose weight interval (normalised by Σw) contains the recorded draw
+                (!(lawJudgeable v.length w) || (match unitDraws im.draws with | some [u] => lawElem v w u e | _ => true), "weighted_pick_law"),
                 -- the remaining (element, weight) pairs are the original ones minus the picked pair
                 (repl || (let pairs := v.zip (w.map Float.toBits); let rest := v'.zip (w'.map Float.toBits)
                           pairs.any (fun q => q.1 == e && isPermOf (q :: rest) pairs)), "weighted_pick_keeps_weights_attached")]
@@ -208,7 +214,8 @@ def step (_ : St) (op : List String) (impl : Option (List String)) : St × Strin
             match int? e with
             | some e =>
               let supp := (v.zip w).any (fun (x, wx) => x == e && wx > 0.0) || v.getLast? == some e
-              verdictOf [(!v.isEmpty, "empty_raises"), (v.contains e, "pick_member"), (supp, "weighted_pick_support")]
+              verdictOf [(!v.isEmpty, "empty_raises"), (v.contains e, "pick_member"), (supp, "weighted_pick_support"),
+                (!(lawJudgeable v.length w) || (match unitDraws im.draws with | some [u] => lawElem v w u e | _ => true), "weighted_pick_law")]
             | _ => "FAIL:parse"
           | none, _ => "FAIL:parse"
         let out :=
@@ -278,9 +285,13 @@ def step (_ : St) (op : List String) (impl : Option (List String)) : St × Strin
           | none, [out] =>
             match ints? out with
             | some out =>
-              if repl then verdictOf [(!(v.isEmpty && k > 0), "empty_raises"), (out.length == k, "sample_size"), (allFrom out v, "sample_repl_subset")]
+              -- the law, judged on the implementation's own recorded draws (one uniform draw per element)
+              let us := unitDraws im.draws
+              if repl then verdictOf [(!(v.isEmpty && k > 0), "empty_raises"), (out.length == k, "sample_size"), (allFrom out v, "sample_repl_subset"),
+                (!(lawJudgeable v.length w) || (match us with | some us => us.length != out.length || lawSampleRepl v w us out | none => true), "weighted_sample_law")]
               else verdictOf [(!tooLong, "sample_too_long_raises"), (out.length == k, "sample_size"),
-                (subMultiset out v, "sample_norepl_distinct"), (k != v.length || isPermOf out v, "sample_norepl_distinct")]
+                (subMultiset out v, "sample_norepl_distinct"), (k != v.length || isPermOf out v, "sample_norepl_distinct"),
+                (!(lawJudgeable v.length w && k ≤ nPositive w) || (match us with | some us => us.length != out.length || lawSampleNoRepl us out v w | none => true), "weighted_sample_norepl_law")]
             | none => "FAIL:parse"
           | none, _ => "FAIL:parse"
         let out :=
